@@ -64,6 +64,7 @@ def getterStep (sent : Byte) : List String → Byte × List String
       | "proctitle" => one false getProcessTitle
       | "sockname" => one true (fun v => pipeGetname v sent)
       | "peername" => one true (fun v => pipeGetname v sent)
+      | "csockname" => one true (fun v => pipeGetname v sent)
       | "fsevent" => one true fsEventGetpath
       | "fspoll" => one true fsPollGetpath
       | "ifname" => one true ifIndexToName
